@@ -381,6 +381,9 @@ Definition head_ok (l : language) (ts : list token) (hk : head_kind) (out : list
   | HCb a tail d =>
       ts = a ++ tail ++ out /\ is_jsts l = true /\ a <> [] /\ open_prefix a d /\
       (forall x, is_lparen (last a x) = true \/ is_symbol (last a x) s_comma = true) /\ cb_tail tail
+  | HNew pre kn nm gs =>
+      ts = pre ++ kn :: nm :: gs ++ out /\ (l = LJava \/ l = LCSharp) /\ forallb plain pre = true /\
+      kw_is kn kw_new = true /\ is_name nm = true /\ groups gs
   end.
 
 Lemma func_kw_split : forall l before pre fk,
@@ -631,6 +634,52 @@ Proof.
   - apply IHf in H. exact H.
 Qed.
 
+(* the head of an anonymous class / object creation statement (Java, C#) *)
+Lemma new_head_body_sound : forall (ts : list token) hk out,
+  (let '(p, r1) := take_plain ts in
+   match rev p with
+   | nm :: kn :: rpre =>
+       if kw_is kn kw_new && is_name nm then
+         if groups_b (firstn (groups_len r1 0%Z) r1)
+         then Some (HNew (rev rpre) kn nm (firstn (groups_len r1 0%Z) r1), skipn (groups_len r1 0%Z) r1) else None
+       else None
+   | _ => None
+   end) = Some (hk, out) ->
+  exists pre kn nm gs, hk = HNew pre kn nm gs /\ ts = pre ++ kn :: nm :: gs ++ out /\
+    forallb plain pre = true /\ kw_is kn kw_new = true /\ is_name nm = true /\ groups gs.
+Proof.
+  intros ts hk out H.
+  destruct (take_plain ts) as [p r1] eqn:Htp.
+  apply take_plain_spec in Htp. destruct Htp as [Ets Hp].
+  destruct (rev p) as [| nm [| kn rpre]] eqn:Hrev; try discriminate.
+  destruct (kw_is kn kw_new && is_name nm) eqn:Hkn; [| discriminate].
+  apply andb_true_iff in Hkn. destruct Hkn as [Hkn Hnm].
+  pose proof (firstn_skipn (groups_len r1 0%Z) r1) as Hfs.
+  set (n := groups_len r1 0%Z) in *. clearbody n.
+  destruct (groups_b (firstn n r1)) eqn:Hgs; [| discriminate].
+  apply groups_b_sound in Hgs.
+  inversion H; subst hk out. clear H.
+  assert (Ep : p = rev rpre ++ [kn; nm]).
+  { rewrite <- (rev_involutive p), Hrev. cbn [rev]. rewrite <- app_assoc. reflexivity. }
+  exists (rev rpre), kn, nm, (firstn n r1). split; [reflexivity |]. split; [| split; [| split; [| split]]].
+  - rewrite Ets, Ep, <- Hfs at 1. list_norm. reflexivity.
+  - rewrite Ep, forallb_app in Hp. apply andb_true_iff in Hp. destruct Hp as [Hp _]. exact Hp.
+  - exact Hkn.
+  - exact Hnm.
+  - exact Hgs.
+Qed.
+
+Lemma new_head_sound : forall l ts hk out, new_head l ts = Some (hk, out) -> head_ok l ts hk out.
+Proof.
+  intros l ts hk out H. unfold new_head in H.
+  assert (Hl : l = LJava \/ l = LCSharp) by (destruct l; try discriminate; [right | left]; reflexivity).
+  assert (Hb : exists pre kn nm gs, hk = HNew pre kn nm gs /\ ts = pre ++ kn :: nm :: gs ++ out /\
+                 forallb plain pre = true /\ kw_is kn kw_new = true /\ is_name nm = true /\ groups gs).
+  { apply new_head_body_sound. destruct l; try discriminate; exact H. }
+  destruct Hb as (pre & kn & nm & gs & Ehk & Ets & Hpre & Hkn & Hnm & Hgs).
+  subst hk. cbn [head_ok]. repeat split; assumption.
+Qed.
+
 (* the head of a braced item as parse_items computes it: the callback split first, parse_head otherwise *)
 Lemma item_head_sound : forall l ts hk out,
   match (if is_jsts l then
@@ -641,14 +690,19 @@ Lemma item_head_sound : forall l ts hk out,
            end
          else None) with
   | Some x => Some x
-  | None => parse_head l ts
+  | None => match new_head l ts with Some x => Some x | None => parse_head l ts end
   end = Some (hk, out) ->
   head_ok l ts hk out.
 Proof.
   intros l ts hk out H.
-  destruct (is_jsts l) eqn:Hj; [| apply parse_head_sound; exact H].
+  assert (Hother : match new_head l ts with Some x => Some x | None => parse_head l ts end = Some (hk, out) ->
+                   head_ok l ts hk out).
+  { intros H'. destruct (new_head l ts) as [[hk' out'] |] eqn:Hnh.
+    - inversion H'; subst hk' out'. apply new_head_sound. exact Hnh.
+    - apply parse_head_sound. exact H'. }
+  destruct (is_jsts l) eqn:Hj; [| apply Hother; exact H].
   destruct (take_until_brace ts) as [pre rest0] eqn:Htb.
-  destruct (cb_find (S (length pre)) 1 pre) as [[k d] |] eqn:Hcf; [| apply parse_head_sound; exact H].
+  destruct (cb_find (S (length pre)) 1 pre) as [[k d] |] eqn:Hcf; [| apply Hother; exact H].
   inversion H; subst hk out. clear H.
   apply take_until_brace_spec in Htb.
   apply cb_find_sound in Hcf. destruct Hcf as (How & Hne & Hlast & Htail).
@@ -749,13 +803,60 @@ Proof.
   apply item_head_sound in Hph.
   destruct rest1 as [| o bm]; [discriminate |].
   destruct (is_lbrace o) eqn:Hlo; cbn [negb] in H; [| discriminate].
-  match type of H with context [parse_items f l ?x bm] =>
-    destruct (parse_items f l x bm) as [[ds1 [| c more]] |] eqn:Hp1; try discriminate end.
+  match type of H with (match ?X with _ => _ end) = _ =>
+    destruct X as [[ds1 [| c more]] |] eqn:Hp1; try discriminate end.
   destruct (is_rbrace c) eqn:Hrc; cbn [negb] in H; [| discriminate].
-  apply IHf in Hp1. destruct Hp1 as (body & Ebm & Hbody).
+  (* the body: parsed as items, or (HNew only) flat *)
+  assert (Hbd : exists body, bm = body ++ c :: more /\
+            (items_of l (off + (length ts - length (o :: bm)) + 1) body ds1 \/
+             ((exists p0 k0 n0 g0, hk = HNew p0 k0 n0 g0) /\ forallb plain body = true /\ ds1 = []))).
+  { destruct hk as [pre hd nm_off hend_off | kw words cond | a tail d | pre kn nm gs]; cbv iota in Hp1;
+      try (apply IHf in Hp1; destruct Hp1 as (body & Ebm & Hbody); exists body; split; [exact Ebm | left; exact Hbody]).
+    destruct (take_plain bm) as [flat r3] eqn:Htp.
+    assert (Hitems : parse_items f l (off + (length ts - length (o :: bm)) + 1) bm = Some (ds1, c :: more) ->
+              exists body, bm = body ++ c :: more /\
+                (items_of l (off + (length ts - length (o :: bm)) + 1) body ds1 \/
+                 ((exists p0 k0 n0 g0, HNew pre kn nm gs = HNew p0 k0 n0 g0) /\ forallb plain body = true /\ ds1 = []))).
+    { intros Hp. apply IHf in Hp. destruct Hp as (body & Ebm & Hbody).
+      exists body. split; [exact Ebm | left; exact Hbody]. }
+    destruct r3 as [| c0 r4]; [apply Hitems; exact Hp1 |].
+    destruct (is_rbrace c0) eqn:Hc0; [| apply Hitems; exact Hp1].
+    inversion Hp1; subst ds1 c0 r4. clear Hp1.
+    apply take_plain_spec in Htp. destruct Htp as [Ebm Hflat].
+    exists flat. split; [exact Ebm |]. right. split; [| split; [exact Hflat | reflexivity]].
+    exists pre, kn, nm, gs. reflexivity. }
+  destruct Hbd as (body & Ebm & Hbd).
   assert (Hlbm : length bm = length body + S (length more)).
   { rewrite Ebm, app_length. reflexivity. }
-  destruct hk as [pre hd nm_off hend_off | kw words cond | a tail d]; cbn [head_ok] in Hph.
+  destruct hk as [pre hd nm_off hend_off | kw words cond | a tail d | pre kn nm gs]; cbn [head_ok] in Hph;
+    cbv iota in H.
+  4: { (* an object creation with a class body, closed as a statement *)
+    destruct Hph as (Ets & Hl & _ & Hkn & Hnm & Hgs).
+    assert (Hlts : length ts = length pre + 2 + length gs + S (length bm)).
+    { rewrite Ets, app_length. cbn [length]. rewrite app_length. cbn [length]. lia. }
+    destruct (stmt_len more 0) as [n |] eqn:Hsl2; cbv iota in H; cbn [negb] in H; [| discriminate].
+    destruct (inner_b (firstn (n - 1) more)) eqn:Hin; cbn [negb] in H; [| discriminate].
+    apply stmt_len_split in Hsl2. destruct Hsl2 as (post & semi & r' & Emore & En & Hsemi).
+    assert (Efirst : firstn (n - 1) more = post).
+    { subst n more. cbn [Nat.sub]. rewrite Nat.sub_0_r. apply firstn_app_exact. }
+    assert (Eskip : skipn n more = r').
+    { subst n more. apply skipn_S_app. }
+    rewrite Efirst in Hin. apply inner_b_sound in Hin. rewrite Eskip in H.
+    match type of H with context [parse_items f l ?x r'] =>
+      destruct (parse_items f l x r') as [[ds2 rest3] |] eqn:Hp2; [| discriminate] end.
+    apply IHf in Hp2. destruct Hp2 as (r & Er' & Hr).
+    destruct (forallb plain pre) eqn:Hpre; [| discriminate].
+    inversion H; subst ds rest3. clear H.
+    assert (Hlmore : length more = length post + S (length r')).
+    { rewrite Emore, app_length. reflexivity. }
+    exists (pre ++ kn :: nm :: gs ++ o :: body ++ c :: post ++ semi :: r). split.
+    - rewrite Ets, Ebm, Emore, Er'. list_norm. reflexivity.
+    - apply io_new; try assumption.
+      + destruct Hbd as [Hbody | (_ & Hflat & Eds1)].
+        * left. apply (items_of_off_eq _ _ _ _ _ Hbody). cbn [length]. lia.
+        * right. split; assumption.
+      + apply (items_of_off_eq _ _ _ _ _ Hr). cbn [length]. lia. }
+  all: destruct Hbd as [Hbody | ((p0 & k0 & n0 & g0 & Ehk) & _)]; [| discriminate Ehk].
   - (* a function *)
     cbn [negb skipn] in H.
     match type of H with context [parse_items f l ?x more] =>
